@@ -19,7 +19,8 @@ from common import L, LEAN, ModelRaise, exc_kind
 RULE = ("exhaustive: every entry of platonic(5), archimedean(13), catalan(13), johnson(92), prism_antiprism(16), "
         "pyramid_dipyramid(6) and of the DOI 10.1126/science.1220869 repository (145), each through names, iter and "
         "get_shape; histories (all families iterated, then every family asked for every name of every other family; user "
-        "tables reusing shipped names; every name asked twice with the first result mutated; random histories); unknown "
+        "tables reusing shipped names; every name asked twice with the first result mutated; random histories); several live "
+        "iterators per family (alternating, zip, kept across a pass, nested loops); unknown "
         "names / DOIs (fixed probes incl. strings containing a known DOI + random strings). distinct = distinct (table, "
         "entry) or history; non-trivial = entry with >= 4 vertices")
 ASSUMPTIONS = [
@@ -1551,6 +1552,232 @@ def history_sessions(ctx, fams, tables_json, entries):
         check_history(ctx, fams, tables_json, specs, steps, "random-user-tables")
 
 
+# ------------------------------------------------------------------------------------------ live iterators
+#
+# `iter(family)` must create an INDEPENDENT iteration every time: a family is one module-level object, and nested /
+# pairwise loops, zip(fam, fam) or an iterator kept while another pass runs have several iterations alive at once.
+# Steps: ["start", fam] (it = iter(fam); iterators are numbered in order of creation) | ["next", it] |
+#        ["get", fam, name] | ["len", fam] (len(fam.names)).  Expected: the k-th next of EVERY iterator is
+#        (names[k], the table's record of names[k]); after len(names) items StopIteration.
+
+def run_iterators(world, steps):
+    """-> (answers, problems); answers[k] in the model's format: ("start", it) | ("item", name, class, payload) |
+    ("stop",) | ("shape", class, payload|kind) | ("len", n) | ("none",)"""
+    its = []            # [iterator object, family index, number of items it has yielded]
+    answers, problems = [], []
+    for k, st in enumerate(steps):
+        kind = st[0]
+        if kind == "start":
+            i = int(st[1])
+            its.append([_quiet(iter, world.fams[i]), i, 0])
+            answers.append(("start", len(its) - 1))
+        elif kind == "next":
+            if int(st[1]) >= len(its):
+                answers.append(("none",))
+                continue
+            it, i, pos = its[int(st[1])]
+            recs, lab = world.records[i], world.table_label(i)
+            names = list(recs)
+            cls = CLASS_NAME.get(world.labels[i], "TabulatedGSDShapeFamily(user table %s)" % world.labels[i])
+            try:
+                item = _quiet(next, it)
+            except StopIteration:
+                answers.append(("stop",))
+                if pos < len(names):
+                    problems.append(("TabulatedGSDShapeFamily.__iter__:interleaved-iterators:" + lab,
+                                     "an iterator over %s stopped after %d of %d names while other iterations over the "
+                                     "same family were alive" % (cls, pos, len(names)), k,
+                                     {"iterator": int(st[1]), "yielded": pos, "expected_next": names[pos]}))
+                continue
+            except Exception as e:
+                answers.append(("shape", -1, exc_kind(e)))
+                problems.append(("TabulatedGSDShapeFamily.__iter__:raises-after-history:" + lab,
+                                 "next() on an iterator over %s raised %s" % (cls, exc_kind(e)), k, repr(e)))
+                continue
+            its[int(st[1])][2] = pos + 1
+            n, shp = item
+            code = world.classify(i, shp.vertices, n)
+            answers.append(("item", n, 0 if type(shp).__name__ == "ConvexPolyhedron" else 2, code))
+            if pos >= len(names):
+                problems.append(("TabulatedGSDShapeFamily.__iter__:interleaved-iterators:" + lab,
+                                 "an iterator over %s yielded a %dth item (%r); the family has %d names" % (
+                                     cls, pos + 1, n, len(names)), k, {"iterator": int(st[1]), "got": n}))
+            elif n != names[pos]:
+                problems.append(("TabulatedGSDShapeFamily.__iter__:interleaved-iterators:" + lab,
+                                 "item %d of an iterator over %s is %r, not names[%d] = %r: iterations over the same "
+                                 "family that are alive at the same time are not independent" % (
+                                     pos, cls, n, pos, names[pos]), k,
+                                 {"iterator": int(st[1]), "got": n, "expected": names[pos]}))
+            elif not np.array_equal(np.asarray(shp.vertices, dtype=float), recs[n]):
+                problems.append(("TabulatedGSDShapeFamily.__iter__:not-own-records:" + lab,
+                                 "item %d (%r) of an iterator over %s does not have the vertices stored under that name"
+                                 % (pos, n, cls), k, {"iterator": int(st[1]), "name": n}))
+        elif kind == "get":
+            i, name = int(st[1]), st[2]
+            try:
+                shp = _quiet(world.fams[i].get_shape, name)
+                answers.append(("shape", 0 if type(shp).__name__ == "ConvexPolyhedron" else 2,
+                                world.classify(i, shp.vertices, name)))
+            except Exception as e:
+                answers.append(("shape", -1, exc_kind(e)))
+        else:
+            i = int(st[1])
+            n = len(world.fams[i].names)
+            try:
+                len(world.fams[i])          # a family may or may not define __len__; it must not disturb anything
+            except TypeError:
+                pass
+            answers.append(("len", n))
+    return answers, problems
+
+
+def model_iterators(ctx, world, steps):
+    toks = [len(world.fams)]
+    for recs in world.records:
+        toks.append(len(recs))
+        for name in recs:
+            toks += [s2codes(name), 1, s2codes("ConvexPolyhedron"), 0]
+    toks.append(len(steps))
+    for st in steps:
+        if st[0] == "start":
+            toks += [0, int(st[1])]
+        elif st[0] == "next":
+            toks += [1, int(st[1])]
+        elif st[0] == "get":
+            toks += [2, int(st[1]), s2codes(st[2])]
+        else:
+            toks += [3, int(st[1])]
+    r = ctx.driver.Q("c18.iters", *toks)
+    pos = [0]
+
+    def take():
+        x = r[pos[0]]
+        pos[0] += 1
+        return x
+
+    def take_str():
+        n = take()
+        return "".join(chr(take()) for _ in range(n))
+
+    def take_shape():
+        c = take()
+        return (-1, take_str()) if c == -1 else (c, take())
+
+    out = []
+    for _ in steps:
+        t = take()
+        if t == 0:
+            out.append(("start", take()))
+        elif t == 1:
+            n = take_str()
+            out.append(("item", n) + take_shape())
+        elif t == 9:
+            out.append(("stop",))
+        elif t == 2:
+            out.append(("shape",) + take_shape())
+        elif t == 3:
+            out.append(("len", take()))
+        else:
+            out.append(("none",))
+    return out
+
+
+def _iter_patterns(rng, i, names, big):
+    """step lists for family i: {pattern name: steps}.  Iterator numbers are local to each list."""
+    n = len(names)
+    pats = {}
+    # (a)+(d) two live iterators advanced in a seeded random pattern, get_shape / names / len in between
+    steps, left = [["start", i], ["start", i]], [n + 1, n + 1]
+    while left[0] or left[1]:
+        x = rng.random()
+        if x < 0.12:
+            steps.append(["get", i, names[int(rng.integers(0, n))]])
+        elif x < 0.2:
+            steps.append(["len", i])
+        else:
+            j = int(rng.integers(0, 2))
+            if not left[j]:
+                j = 1 - j
+            steps.append(["next", j])
+            left[j] -= 1
+    pats["two-iterators-alternating"] = steps
+    # (b) zip(fam, fam): lock step, stops when the first is exhausted
+    steps = [["start", i], ["start", i]]
+    for _ in range(n):
+        steps += [["next", 0], ["next", 1]]
+    steps.append(["next", 0])
+    pats["zip"] = steps
+    # an iterator kept while a complete other pass runs
+    steps = [["start", i], ["next", 0], ["start", i]] + [["next", 1]] * (n + 1) + [["next", 0]] * n
+    pats["kept-across-a-pass"] = steps
+    # (c) nested loop: all n*n pairs for the small families; for the big ones the inner loop breaks after 2 items
+    inner = 2 if big else n + 1
+    steps = [["start", i]]
+    for a in range(n):
+        steps.append(["next", 0])
+        steps.append(["start", i])
+        steps += [["next", a + 1]] * inner
+    steps.append(["next", 0])
+    pats["nested-loop" + ("-inner-break" if big else "")] = steps
+    return pats
+
+
+MINIMAL_ITER = [["start", 0], ["start", 0], ["next", 0], ["next", 1], ["next", 0]]
+
+
+def check_iterators(ctx, fams, tables_json, user_specs, steps, label, minimise=True):
+    world = HWorld(fams, tables_json, user_specs)
+    ctx.case({"kind": "iterators", "label": label, "user": user_specs, "steps": len(steps)})
+    ctx.count("iterators:" + label.split(":")[0])
+    ctx.count("iterator-steps", len(steps))
+    answers, problems = run_iterators(world, steps)
+    seen = set()
+    for sig, what, k, detail in problems:
+        if sig in seen:
+            continue
+        seen.add(sig)
+        hist = steps[:k + 1]
+        if minimise:
+            # iterators are created by the steps themselves, so a shorter history can be tried in this process
+            fam_i = next(int(s[1]) for s in steps if s[0] == "start")
+            cand = [[s[0], fam_i] if s[0] == "start" else list(s) for s in MINIMAL_ITER]
+            _, p2 = run_iterators(HWorld(fams, tables_json, user_specs), cand)
+            if any(q[0] == sig for q in p2):
+                hist = cand[:max(q[2] for q in p2 if q[0] == sig) + 1]
+                what = next(q[1] for q in p2 if q[0] == sig)
+        named = [[s[0], world.labels[int(s[1])]] + list(s[2:]) if s[0] != "next" else list(s) for s in hist]
+        ctx.fail(sig, what + " — pattern %s, steps: %s" % (label, "; ".join(
+            "%s(%s)" % (s[0], ", ".join(repr(x) for x in s[1:])) for s in named[-6:])),
+            {"kind": "iterators", "label": label, "user": user_specs, "steps": hist, "steps_named": named}, detail)
+    model = model_iterators(ctx, world, steps)
+    for k, (a, m) in enumerate(zip(answers, model)):
+        if tuple(a) != tuple(m):
+            ctx.disagree("c18.iters", {"kind": "iterators", "label": label, "user": user_specs,
+                                       "steps": steps[:k + 1]},
+                         {"step": steps[k], "impl": repr(a), "model": repr(m)})
+            break
+    return problems
+
+
+def iterator_sessions(ctx, fams, tables_json, entries):
+    """every family (the seven shipped tabulated ones incl. the repository family, and a user table): several live
+    iterations at once.  (The families of the other two DOIs are parametric classes, not iterable tables.)"""
+    rng = ctx.rng
+    small = [(lid, it["name"]) for lid in SHIPPED for it in entries[lid] if 4 <= len(it["verts"]) <= 12]
+    spec = []
+    for nm in ["Cube", "My Solid", "Tetrahedron", "P03"]:
+        st, sn = small[int(rng.integers(0, len(small)))]
+        spec.append([nm, st, sn, 2.0])
+    names_of = [[n for n, _ in tables_json[lid]] for lid in SHIPPED] + [[r[0] for r in spec]]
+    for i, names in enumerate(names_of):
+        lab = SHIPPED[i] if i < len(SHIPPED) else "user"
+        big = len(names) > 20
+        for pname, steps in _iter_patterns(rng, i, names, big).items():
+            if big and ctx.tier == "quick" and ctx.widen == 1 and pname == "kept-across-a-pass":
+                continue        # covered by the alternating pattern; keeps the quick tier short
+            check_iterators(ctx, fams, tables_json, [spec], steps, "%s:%s" % (pname, lab))
+
+
 # ------------------------------------------------------------------------------------------ run / replay
 
 
@@ -1587,6 +1814,7 @@ def run(ctx):
                              {"table": lean_id, "name": tname, "kind": "family"}, tname)
         unknown_name_probes(ctx, fams, lean_id)
     history_sessions(ctx, fams, tables_json, entries)
+    iterator_sessions(ctx, fams, tables_json, entries)
     doi_probes(ctx)
     synthetic_family(ctx)
     mutant_certificates(ctx, entries, tables_json)
@@ -1616,6 +1844,9 @@ def replay(ctx, payload):
     elif kind == "history" and isinstance(case.get("steps"), list):
         check_history(ctx, fams, tables_json, case.get("user", []), case["steps"], case.get("label", "replay"),
                       minimise=False)
+    elif kind == "iterators" and isinstance(case.get("steps"), list):
+        check_iterators(ctx, fams, tables_json, case.get("user", []), case["steps"], case.get("label", "replay"),
+                        minimise=False)
     elif kind == "doi":
         ctx.case(case)
         doi_probes(ctx)
